@@ -29,7 +29,9 @@ CHECKS = {
                   "phases, xstream barrier, logical-deadlock supervisor, delay injection, ASan/TSan builds",
         category="exploration",
         text="held on the executions produced: thousands of back-to-back rounds per scenario with 1-24 ULT/external waiters "
-             "(fast callers lapping slow ones), reinit to other counts, xstream barriers, under delay injection and sanitizers",
+             "(fast callers lapping slow ones), reinit to other counts, rejected tasklet callers on the same barrier, xstream "
+             "barriers with one ULT per stream plus external-thread waiters (also with a single stream), under delay "
+             "injection and sanitizers",
         ref="DESIGN.md §5 C08"),
     "C05": dict(
         technique="runtime monitoring: wake-credit accounting and holder word under the user mutex, token conservation, "
@@ -39,22 +41,24 @@ CHECKS = {
         text="held on the executions produced: closed producer/consumer programs over random configurations with "
              "ULT/external and timed/untimed waiters (no wake-up without a credit, waiter returns owning the mutex, no lost "
              "signal = no logical deadlock, tokens conserved) and hundreds of scripted queue shapes where the exact set of "
-             "returning waiters is compared with a reference model after every signal/broadcast/clock step",
-        ref="DESIGN.md §5 C05"),
+             "returning waiters is compared with a reference model after every signal/broadcast/clock step; timed waits with "
+             "far-future deadlines make a signal lost between unlock and enqueue show as a logical deadlock",
+        ref="DESIGN.md §5 C05, §10.5"),
     "C09": dict(
         technique="runtime monitoring: per-epoch set/observer ledger (single winner, observers read the winner's bytes, "
                   "callback-before-waiters), reset cycles, logical-deadlock supervisor, delay injection, ASan/TSan builds",
         category="exploration",
         text="held on the executions produced: thousands of ready epochs of eventuals (all value sizes incl. 0) and futures "
              "(0..64 compartments, with/without callback) with racing setters, blocked and late waiters, testers of every "
-             "caller kind, under delay injection and sanitizers",
-        ref="DESIGN.md §5 C09"),
+             "caller kind, callbacks that take 50-450 us, under delay injection and sanitizers",
+        ref="DESIGN.md §5 C09, §10.5"),
     "C10": dict(
         technique="runtime monitoring: reader/writer presence counters checked on entry and exit of every critical section, "
                   "scripted reader-inclusion phases decided by the logical-deadlock supervisor, delay injection, ASan/TSan",
         category="exploration",
         text="held on the executions produced: soups of 2-25 ULT/external lockers with 5-90% writes on random configurations "
-             "and scripted phases where a second reader must enter while the first still holds the lock",
+             "and scripted phases where a second reader must enter while the first still holds the lock and where 2-4 "
+             "readers queued behind a writer must all be inside together after it unlocks",
         ref="DESIGN.md §5 C10"),
     "C07": dict(
         technique="runtime monitoring: API-boundary histories with unique push instances and global call/return tickets, "
@@ -121,8 +125,9 @@ CHECKS = {
         category="exploration",
         text="held on the executions produced: thousands of work units per run over random programs and scheduler/pool "
              "configurations each start exactly once with their own function and argument, complete before their joiner, "
-             "before the join of the only stream serving their pool and before ABT_finalize return; pools empty at quiescence",
-        ref="DESIGN.md §5 C01"),
+             "before the join of the only stream serving their pool and before ABT_finalize return; pools empty at quiescence; "
+             "stacked schedulers that finish while ABT_pool_add_sched is still returning; joins of multi-pool schedulers",
+        ref="DESIGN.md §5 C01, §10.3, §10.5"),
     "C03": dict(
         technique="runtime monitoring: scripted join trials over the caller x target x behaviour x timing x API matrix with "
                   "completion flags and a 64-word pattern checked at the instant join/free returns, handle/state checks, "
@@ -142,8 +147,11 @@ CHECKS = {
         text="held on the executions produced: in hundreds of scenarios per run the join/finalize returned only after every "
              "unit of the stream's private pool (or of a stacked scheduler's pool on it) had completed although all were "
              "blocked (eventual, cond, self-suspend, mutex) when the call was issued; stream TERMINATED afterwards; the blocked "
-             "counter equalled the number of blocked units at quiescence, was 0 afterwards and never sampled negative",
-        ref="DESIGN.md §5 C06"),
+             "counter equalled the number of blocked units at quiescence, was 0 afterwards and never sampled negative; the "
+             "same with multi-pool schedulers (shared empty pool first), joins overlapping a scheduler replacement, "
+             "join-revive-idle-work-join rounds, and units that carry or receive migration requests while they block "
+             "(per-pool counters compared exactly with the blocked units' pools at every all-blocked point)",
+        ref="DESIGN.md §5 C06, §10.3, §10.5"),
     "C11": dict(
         technique="runtime monitoring: resume-credit accounting and a running-instance counter for suspend/resume racing "
                   "with resumers on other streams; expectation posting (next unit on the stream, caller state) checked by "
